@@ -1,22 +1,22 @@
 SPECIFICATION Spec
 CONSTANTS
-  Procs = {1}
-  MaxRev = 8
-  MaxOps = 3
+  Procs = {1, 2}
+  MaxRev = 6
+  MaxOps = 1
   MaxFaults = 0
   MaxCrash = 0
   MaxEdits = 0
   FaultKinds = {}
-  Sequential = TRUE
-  Planned = TRUE
+  Sequential = FALSE
+  Planned = FALSE
   MaxPlan = 36
   InitStores <- StoresEmpty
-  LogSched = FALSE
-  KeepLog = FALSE
-  OpMenu <- MenuOwn
+  LogSched = TRUE
+  KeepLog = TRUE
+  OpMenu <- MenuConcX
   EditMenu <- EditsNone
-  PreMenu <- PreOwn
+  PreMenu <- PreBy
   Objs <- AllObjs
-  MenuGuard <- GuardBias
+  MenuGuard <- GuardTrue
 CONSTRAINT GenExport
 CHECK_DEADLOCK FALSE
